@@ -1,6 +1,7 @@
 package main
 
 import (
+	"io"
 	"regexp"
 	"encoding/json"
 	"fmt"
@@ -338,6 +339,11 @@ func genPrograms(r interface{ Intn(int) int }, p concP) [][]COp {
 				ops = append(ops, COp{K: "logwrite", Data: fmt.Sprintf("<c%d-%02d>", c, len(ops)), Cl: c})
 				continue
 			}
+			if p.Log && r.Intn(8) == 0 {
+				// other calls on the shared handle: they may move its cursor, never where an O_APPEND write lands
+				ops = append(ops, COp{K: "logseek", Uid: r.Intn(40), Gid: r.Intn(3), Cl: c})
+				continue
+			}
 			switch v := r.Intn(20); {
 			case v < 5: // create + write + close of a private file in a stable directory
 				nfile++
@@ -395,10 +401,7 @@ type clientState struct {
 		Write([]byte) (int, error)
 		Close() error
 	}
-	log interface {
-		Write([]byte) (int, error)
-		Close() error
-	}
+	log afero.File
 }
 
 func execCOp(rig *Rig, cs *clientState, o COp) COut {
@@ -498,6 +501,24 @@ func execCOp(rig *Rig, cs *clientState, o COp) COut {
 		}
 		if n != len(o.Data) {
 			return COut{Err: fmt.Sprintf("short write %d of %d", n, len(o.Data))}
+		}
+	case "logseek":
+		if cs.log == nil {
+			return COut{Err: "no shared handle"}
+		}
+		switch o.Gid {
+		case 0:
+			if _, err := cs.log.Seek(int64(o.Uid), io.SeekStart); err != nil {
+				return fail2(err)
+			}
+		case 1:
+			if _, err := cs.log.Seek(0, io.SeekCurrent); err != nil {
+				return fail2(err)
+			}
+		default:
+			if _, err := cs.log.Stat(); err != nil {
+				return fail2(err)
+			}
 		}
 	case "logclose":
 		if err := cs.log.Close(); err != nil {
@@ -638,6 +659,14 @@ func concRun(prop, tier string, c Case, w *Worker) (res Result) {
 	var clock atomic.Int64
 	var mu sync.Mutex
 	var hist []porcupine.Operation
+	if logH != nil {
+		// a first record puts the handle into write mode before the clients start: a Seek on a handle still in read mode starts
+		// streaming the file and keeps the drive (the open finding partial-read-holds-drive), which is not this case's subject
+		first := COp{K: "logwrite", Data: "<c99-00>", Cl: p.Clients}
+		call := clock.Add(1)
+		out := execCOp(rig, &clientState{log: logH}, first)
+		hist = append(hist, porcupine.Operation{ClientId: p.Clients, Input: first, Call: call, Output: out, Return: clock.Add(1)})
+	}
 	gids := make([]int64, p.Clients)
 	var wg sync.WaitGroup
 	start := make(chan struct{})
@@ -736,8 +765,11 @@ func concRun(prop, tier string, c Case, w *Worker) (res Result) {
 		}
 		kept := hist[:0:0]
 		for _, o := range hist {
-			if o.Input.(COp).K != "logwrite" {
+			if k := o.Input.(COp).K; k != "logwrite" && k != "logseek" {
 				kept = append(kept, o)
+			} else if k == "logseek" && !o.Output.(COut).OK {
+				viol("log-seek-failed", "Seek / Stat on the shared, open handle failed: %s", o.Output.(COut).Err)
+				return
 			}
 		}
 		hist = kept
